@@ -93,6 +93,21 @@ stream, every datagram applied at quiescence. -/
 def scriptOf (m : α → Bool) (arr : List (Int × α)) : List Event :=
   arr.map (fun a => ⟨a.1, if m a.2 then .acc else .rej, true⟩)
 
+/-- What the caller observes of a script of datagram injections when nothing
+races: event number `i` at its effective instant (the script clock never goes
+back: `max e.t clk`), any deadline falling on that instant having fired first. -/
+def scriptObsFrom (clk : Int) (i : Nat) : List Event → List Obs
+  | [] => []
+  | e :: es => ⟨max e.t clk, obsKind e.kind, i, true⟩ :: scriptObsFrom (max e.t clk) (i + 1) es
+
+def scriptObs (evs : List Event) : List Obs := scriptObsFrom 0 0 evs
+
+/-- a script that only injects datagrams (no cancel, no Close) -/
+def ArrivalsOnly (evs : List Event) : Prop := ∀ e ∈ evs, isArrival e.kind = true
+
+/-- what a group of the script looks like to the caller when nothing races -/
+def viewOf (g : Int × Bool × Group) : List Obs := toObs g.1 true g.2.2
+
 /-! ### The exchanges of `Dhcp.Client.Lease` over the timed machine
 
 Same code as `discoverOffer`, `requestFromOffer`, `request`, `renew`, `inform`
